@@ -167,14 +167,33 @@ func hasJumps(n *Node) bool {
 }
 
 type equivGen struct {
-	t    *rapid.T
-	refs int
+	t         *rapid.T
+	refs      int
+	noCounted bool
 }
 
 func (g *equivGen) ref() *Node { g.refs++; return &Node{K: KGlobal, S: placeholder} }
 
 func (g *equivGen) contextElem() *Node {
-	switch rapid.IntRange(0, 7).Draw(g.t, "ctx") {
+	ctx := rapid.IntRange(0, 9).Draw(g.t, "ctx")
+	if (ctx == 6 || ctx == 7) && (g.refs == 0 || g.noCounted) {
+		// the code generator unrolls mandatory iterations, and a definition inside
+		// them is rejected as a name clash: the first reference of a command (which
+		// becomes the definition in the inline rendering) and bodies that define
+		// subroutines themselves stay outside counted loops
+		ctx = 8
+	}
+	switch ctx {
+	case 6, 7:
+		// a loop with mandatory iterations (unrolled by the generator): exactly n,
+		// at least n, between n and n+1, around the reference alone or after a literal
+		min := rapid.IntRange(1, 3).Draw(g.t, "cmin")
+		max := rapid.SampledFrom([]int{-1, min, min + 1}).Draw(g.t, "cmax3")
+		body := g.ref()
+		if rapid.Bool().Draw(g.t, "cseq") {
+			body = &Node{K: KSeq, Kids: []*Node{{K: KLit, S: rapid.SampledFrom([]string{"-", "a", " "}).Draw(g.t, "csep")}, body}}
+		}
+		return &Node{K: KLoop, Min: min, Max: max, Fewest: rapid.Bool().Draw(g.t, "cf3"), Body: body}
 	case 0:
 		return &Node{K: KLit, S: rapid.SampledFrom([]string{"a", "b", "ab", " "}).Draw(g.t, "clit")}
 	case 1:
@@ -217,7 +236,7 @@ func renderCommand(amount string, body []*Node) string {
 func TestC13(t *testing.T) {
 	seedNote(t)
 	StartWatchdog("C13", 60*time.Second)
-	st := NewStats("C13", "renderings", "capture-free body B (or, in, loops, not in, optional inline recursion) x context (prefix, suffix, inside maybe / at least 0 / at most 2 / alternation) x 1..3 references x 1..3 commands sharing definitions x text; renderings: written out, {B} = s + calls, set s to pattern B (also through a second pattern); multi-command source vs its commands taken alone; non-trivial = B has a jump-bearing construct and is referenced >= 2 times or from >= 2 commands; distinct by (reference source, text)")
+	st := NewStats("C13", "renderings", "capture-free body B (or, in, loops, not in, optional inline recursion) x context (prefix, suffix, inside maybe / at least 0 / at most 2 / counted loops with 1..3 mandatory iterations / alternation) x 1..3 references x 1..3 commands sharing definitions x text; renderings: written out, {B} = s + calls, set s to pattern B (also through a second pattern); multi-command source vs its commands taken alone; non-trivial = B has a jump-bearing construct and is referenced >= 2 times or from >= 2 commands; distinct by (reference source, text)")
 	defer st.Write()
 	rapid.Check(t, func(t *rapid.T) {
 		f := Features{Subs: true}
@@ -227,7 +246,7 @@ func TestC13(t *testing.T) {
 			bodyB = append(bodyB, bg.node(rapid.IntRange(1, 2).Draw(t, "bdepth")))
 		}
 		B := &Node{K: KSeq, Kids: bodyB}
-		eg := &equivGen{t: t}
+		eg := &equivGen{t: t, noCounted: containsKind(B, KSub)}
 		ncmd := rapid.IntRange(1, 3).Draw(t, "ncmd")
 		var templates [][]*Node
 		totalRefs := 0
@@ -563,4 +582,19 @@ func init() {
 		}
 		return "", ""
 	})
+}
+
+func containsKind(n *Node, k Kind) bool {
+	if n == nil {
+		return false
+	}
+	if n.K == k {
+		return true
+	}
+	for _, c := range n.Kids {
+		if containsKind(c, k) {
+			return true
+		}
+	}
+	return containsKind(n.Body, k)
 }
